@@ -1050,6 +1050,10 @@ func (g *gen) program() (string, []srcModule) {
 			g.addTop("zarr := [0, 1]\nzga := func() { return zarr }\nza := \x01zga\x02\x03\nza[1] = " + fmt.Sprint(2+g.t.Draw(9)) + "\nlog(zarr, zga())\n")
 		}
 	}
+	if g.cfg.CallMark && g.t.Bool(1, 4) {
+		// a Go panic (integer remainder by a run-time zero) raised inside the invoked function, under its own handlers
+		g.addTop("zpz := 0\nzpn := 0\nzpf := func(i) {\n\ttry {\n\t\treturn i % zpz\n\t} catch e {\n\t\treturn \"caught\"\n\t} finally {\n\t\tzpn++\n\t}\n}\nlog(\x01zpf\x027\x03, zpn)\n")
+	}
 	if g.cfg.CallMark && g.t.Bool(1, 10) {
 		// a long history of invocations on one root VM
 		g.addTop(fmt.Sprintf("zlf := func(x) { return x + 1 }\nzls := 0\nfor zli := 0; zli < %d; zli++ { zls += \x01zlf\x02zli\x03 }\nlog(zls)\n", 260+g.t.Draw(400)))
